@@ -14,7 +14,9 @@ def gen_strings(ctx):
     fixed = ["", ".", "..", "/", "//", "///", "a", "a/", "/a", "//a", "///a", "a/..", "../a", "a/../b", "a/./b", "a//b",
              "train/shards_list.json", "/train/shards_list.json", "train/../shards_list.json", "shards_list.json/..",
              "./shards_list.json", "train/shards_list.json/", "train/shards_list.json/.", "..a/b", "a/...", "/etc/passwd",
-             "//etc/passwd", "../data_private/train/x.fb", "train/x.fb", "a/b/c/d/e/f/g/h", "....", ". ./a", " ", "a/ /b"]
+             "//etc/passwd", "../data_private/train/x.fb", "train/x.fb", "a/b/c/d/e/f/g/h", "....", ". ./a", " ", "a/ /b",
+             # spellings that only another platform's separator would make hostile: single harmless components here
+             "..\\a", "\\etc\\passwd", "a\\..\\..\\b", "train\\..\\..\\x.fb", "C:\\x", "..\\elsewhere/x.fb"]
     out = list(fixed)
     for _ in range(ctx.scale(300, 4000)):
         depth = rng.choice([1, 2, 2, 3, 3, 4, 6, 8])
@@ -31,7 +33,9 @@ def gen_strings(ctx):
 
 
 HOSTILE = ["@TMP@/elsewhere/@SHARD@", "../elsewhere/@SHARD@", "../data_private/@SHARD@", "train/../../elsewhere/@SHARD@",
-           "//@TMP@/elsewhere/@SHARD@", "./../data_private/@SHARD@", "train/../../data_private/train/@SHARDNAME@"]
+           "//@TMP@/elsewhere/@SHARD@", "./../data_private/@SHARD@", "train/../../data_private/train/@SHARDNAME@",
+           # the same places spelled with back-slashes (one harmless component on POSIX unless somebody normalises it after the check)
+           "..\\elsewhere\\train\\@SHARDNAME@", "..\\data_private\\train\\@SHARDNAME@", "train\\..\\..\\elsewhere\\train\\@SHARDNAME@"]
 HOSTILE_LISTS = ["@TMP@/elsewhere/train/sub/shards_list.json", "../elsewhere/train/sub/shards_list.json",
                  "../data_private/train/sub/shards_list.json", "train/../../data_private/train/sub/shards_list.json"]
 HOSTILE_SPLIT = ["@TMP@/elsewhere/train/shards_list.json", "../elsewhere/train/shards_list.json",
